@@ -174,3 +174,50 @@ func VerifC12_Individual(cs int) {
 	VsAssert("list-similarity-empty-receiver-is-neutral", (IndividualNodes{}).Similarity(la, opts) == 0.5)
 	_ = fmt.Sprint
 }
+
+// vC12Family builds a document around the individual @I1@ (given name with one symbolic byte):
+// shape bit 0 = has a parents family (father and mother recorded), bit 1 = has a spouse and a child.
+func vC12Family(name string, shape int) *IndividualNode {
+	s := "0 @I1@ INDI\n1 NAME Ell" + VsBytes(name+".given", 1, 0x68, 0x6a) + "ot /Chance/\n1 BIRT\n2 DATE 4 Jan 1843\n"
+	if shape&1 != 0 {
+		s += "1 FAMC @F1@\n"
+	}
+	if shape&2 != 0 {
+		s += "1 FAMS @F2@\n"
+	}
+	if shape&1 != 0 {
+		s += "0 @I2@ INDI\n1 NAME John /Chance/\n1 BIRT\n2 DATE 1810\n1 FAMS @F1@\n0 @I3@ INDI\n1 NAME Jane /Doe/\n1 BIRT\n2 DATE 1815\n1 FAMS @F1@\n"
+		s += "0 @F1@ FAM\n1 HUSB @I2@\n1 WIFE @I3@\n1 CHIL @I1@\n"
+	}
+	if shape&2 != 0 {
+		s += "0 @I4@ INDI\n1 NAME Sarah /Smith/\n1 BIRT\n2 DATE 1850\n1 FAMS @F2@\n0 @I5@ INDI\n1 NAME Bob /Chance/\n1 BIRT\n2 DATE 1875\n1 FAMC @F2@\n"
+		s += "0 @F2@ FAM\n1 HUSB @I1@\n1 WIFE @I4@\n1 CHIL @I5@\n"
+	}
+	doc, err := NewDocumentFromString(s)
+	VsAssume(err == nil)
+	return doc.Individuals().ByPointer("I1")
+}
+
+// VerifC12_Surrounding: the surrounding similarity (parents, individual, spouses, children and their
+// weighted sum) of two individuals whose families are present or missing independently on each side:
+// every component in [0, 1], the same in both directions, exactly neutral (0.5) when the parents are
+// missing on either side. cs%4 and cs/4%4: family shapes of the two sides; cs/16%2: full calculation forced.
+func VerifC12_Surrounding(cs int) {
+	a, b := vC12Family("a", cs%4), vC12Family("b", cs/4%4)
+	opts := NewSimilarityOptions()
+	force := cs/16%2 == 1
+	ab, ba := a.SurroundingSimilarity(b, opts, force), b.SurroundingSimilarity(a, opts, force)
+	VsObserve(ab.WeightedSimilarity())
+	VsReach("surrounding-similarity-computed")
+	VsAssert("surrounding-components-in-unit-interval", VsAll(vIn01(ab.ParentsSimilarity), vIn01(ab.IndividualSimilarity), vIn01(ab.SpousesSimilarity), vIn01(ab.ChildrenSimilarity), vIn01(ab.WeightedSimilarity())))
+	VsAssert("surrounding-parents-symmetric", ab.ParentsSimilarity == ba.ParentsSimilarity)
+	VsAssert("surrounding-individual-symmetric", ab.IndividualSimilarity == ba.IndividualSimilarity)
+	VsAssert("surrounding-spouses-symmetric", ab.SpousesSimilarity == ba.SpousesSimilarity)
+	VsAssert("surrounding-children-symmetric", ab.ChildrenSimilarity == ba.ChildrenSimilarity)
+	VsAssert("surrounding-weighted-symmetric", ab.WeightedSimilarity() == ba.WeightedSimilarity())
+	skipped := ab.IndividualSimilarity == 0 && ab.ParentsSimilarity == 0 && ab.SpousesSimilarity == 0 && ab.ChildrenSimilarity == 0
+	if (cs%4)&1 == 0 || (cs/4%4)&1 == 0 {
+		// parents missing on at least one side: neutral, unless the whole calculation was skipped
+		VsAssert("missing-parents-are-neutral", VsOr(skipped, ab.ParentsSimilarity == 0.5))
+	}
+}
